@@ -21,17 +21,19 @@ func NewFilterTree() internaltypes.FilterTreeI {
 // Add a flow with specified filter to the filter tree
 func (f *FilterTree) AddFlow(flow internaltypes.FlowI) error {
 	filter := flow.GetFilter()
-	result := f.tree.Lookup(filter.GetURL())
-	if result.Match && result.NormalizedURL == filter.GetURL() {
+	// Extend the node of this very pattern only: a lookup by matching may also
+	// return a less specific pattern (a wildcard or a parameter) that merely
+	// accepts the URL, and its flows must not be joined by this one.
+	if existingNode, found := f.tree.LookupDeclaredURL(filter.GetURL()); found {
 		log.Debug().Msgf("Adding %s flow to existing filter tree: %v",
 			flow.GetType().String(), filter.GetURL())
 		switch flow.GetType() {
 		case internaltypes.UserFlow:
-			return result.Value.addUserFlow(flow)
+			return existingNode.addUserFlow(flow)
 		case internaltypes.SystemFlowStart:
-			return result.Value.addSystemFlowStart(flow)
+			return existingNode.addSystemFlowStart(flow)
 		case internaltypes.SystemFlowEnd:
-			return result.Value.addSystemFlowEnd(flow)
+			return existingNode.addSystemFlowEnd(flow)
 		}
 	}
 	var filterNode *FilterNode
